@@ -12,12 +12,26 @@ import gearpy.units as U
 from gearpy.mechanical_objects import DCMotor
 
 
+PARAM_ATTR = {'w0': ('no_load_speed', 'AngularSpeed'), 'tmax': ('maximum_torque', 'Torque'),
+              'i0': ('no_load_electric_current', 'Current'), 'imax': ('maximum_electric_current', 'Current')}
+
+
 def make_motor(c):
+    own = {'w0': U.AngularSpeed(*c['w0']), 'tmax': U.Torque(*c['tmax'])}
     kw = {}
     if c['i0'] is not None:
-        kw = dict(no_load_electric_current=U.Current(*c['i0']), maximum_electric_current=U.Current(*c['imax']))
-    return DCMotor(name='m', inertia_moment=U.InertiaMoment(1, 'kgm^2'), no_load_speed=U.AngularSpeed(*c['w0']),
-                   maximum_torque=U.Torque(*c['tmax']), **kw)
+        own['i0'], own['imax'] = U.Current(*c['i0']), U.Current(*c['imax'])
+        kw = dict(no_load_electric_current=own['i0'], maximum_electric_current=own['imax'])
+    m = DCMotor(name='m', inertia_moment=U.InertiaMoment(1, 'kgm^2'), no_load_speed=own['w0'],
+                maximum_torque=own['tmax'], **kw)
+    # the user re-expresses a parameter object in place after construction (through the motor's property or
+    # through their own reference): its physical magnitude, hence the characteristic, is unchanged
+    for pname, unit, via in c.get('inplace', []):
+        if pname not in own:
+            continue
+        obj = own[pname] if via == 'own' else getattr(m, PARAM_ATTR[pname][0])
+        obj.to(unit, inplace=True)
+    return m
 
 
 def sif(kind, vu):
@@ -167,6 +181,10 @@ def run_C08(ctx):
                 c['stream'] = 'boundary'
         if not (-1 <= c['D'] <= 1):
             c['D'] = max(-1.0, min(1.0, c['D']))
+        if c.get('stream') != 'boundary' and rng.random() < 0.3:
+            c['inplace'] = [(pn, rng.choice(list(SI[PARAM_ATTR[pn][1]].keys())), rng.choice(['prop', 'own']))
+                            for pn in rng.sample(['w0', 'tmax', 'i0', 'imax'], rng.randint(1, 3))]
+            c['stream'] = 'parameters converted in place after construction'
         cases.append(c)
     # standstill / no-load at full duty
     for _ in range(ctx.budget(20, 300)):
@@ -178,7 +196,7 @@ def run_C08(ctx):
         eval_motor(ctx, cases[i:i + 2000])
     ctx.rule = ('motor constants in random units, speeds of both signs up to 3x the no-load speed, duty cycles on a random grid, '
                 'at 0 / +-1 / +-0.5, and on the dead-zone boundary and its floating-point neighbours (0, +-1, +-2, +-3, +-10 ulp), '
-                'with and without current data; mirrored points for the odd symmetry; every case is non-trivial')
+                'with and without current data; parameter objects re-expressed in place after construction; mirrored points for the odd symmetry; every case is non-trivial')
 
 
 def replay_C08(ctx, case):
